@@ -151,7 +151,10 @@ capi_h!(capi_mknod_bad_args, {
     assert!(calls == 0 && counter_get(2) == 1);
     // nothing was opened, closed or looked up on the caller's descriptors
     let k = kref();
-    assert!(k.nclose == 0 && k.n_open() == 1 && !k.any_violation());
+    // (the only descriptor that may have been opened and closed again is the one-time
+    // "is openat2 supported" probe of Resolver::default())
+    assert!(k.nclose <= 1 && k.n_open() == 1 && !k.any_violation());
+    assert!(k.ent(root).unwrap().open);
     kani::cover!(which, "negative fd");
     kani::cover!(!which, "NULL path");
 });
@@ -170,7 +173,10 @@ capi_h!(capi_resolve_bad_args, {
     assert!(ret <= -4096);
     assert!(calls == 0 && counter_get(2) == 1);
     let k = kref();
-    assert!(k.nclose == 0 && k.n_open() == 1 && !k.any_violation());
+    // (the only descriptor that may have been opened and closed again is the one-time
+    // "is openat2 supported" probe of Resolver::default())
+    assert!(k.nclose <= 1 && k.n_open() == 1 && !k.any_violation());
+    assert!(k.ent(root).unwrap().open);
     kani::cover!(which, "negative fd");
     kani::cover!(!which, "NULL path");
 });
